@@ -21,6 +21,103 @@ pub struct CorruptCase {
     /// storage fault applied between two reader calls: (call index, fault)
     pub late: Option<(u32, StorageFault)>,
     pub extra_ids: Vec<u32>,
+    /// true for cases of the systematic single-field sweep
+    #[serde(default)]
+    pub sweep: bool,
+}
+
+// ---------------------------------------------------------------------------------------------
+// systematic part of the campaign: EVERY located field of a fixed list of seed images gets EVERY
+// boundary value once (single-fault enumeration); the seeded random campaign follows it
+// ---------------------------------------------------------------------------------------------
+
+pub fn sweep_images() -> Vec<SeedSpec> {
+    let mut v = vec![SeedSpec::Canned("minimal.mp4".into()), SeedSpec::CannedFrag, SeedSpec::Canned("extended_audio_object_type.mp4".into())];
+    for s in 0..4 {
+        v.push(SeedSpec::Frag { seed: s });
+        v.push(SeedSpec::Mux { seed: s });
+        v.push(SeedSpec::Meta { seed: s });
+    }
+    v.push(SeedSpec::MuxReloc { seed: 0 });
+    v.push(SeedSpec::MuxReloc { seed: 1 });
+    v
+}
+
+pub fn sweep_values(width: u8, current: u64) -> Vec<u64> {
+    let max: u64 = if width >= 8 { u64::MAX } else { (1u64 << (8 * width as u32)) - 1 };
+    let mut v = vec![0, 1, 2, 7, 8, current.wrapping_sub(1), current.wrapping_add(1), current.wrapping_add(8), current.wrapping_mul(2), max >> 1, (max >> 1) + 1, max - 1, max];
+    for x in v.iter_mut() {
+        *x &= max;
+    }
+    v.retain(|x| *x != current);
+    v.sort_unstable();
+    v.dedup();
+    v
+}
+
+struct SweepTable {
+    /// (image index, cumulative number of cases before this image, fields of the image)
+    images: Vec<(SeedSpec, u64, Vec<(u64, u8, u64, String)>)>,
+    total: u64,
+}
+
+thread_local! {
+    static SWEEP: std::cell::OnceCell<SweepTable> = const { std::cell::OnceCell::new() };
+}
+
+const SWEEP_VALUES: u64 = 13;
+
+fn with_sweep<T>(f: impl FnOnce(&SweepTable) -> T) -> T {
+    SWEEP.with(|c| {
+        let t = c.get_or_init(|| {
+            let mut images = Vec::new();
+            let mut total = 0u64;
+            for spec in sweep_images() {
+                let img = build(&spec).bytes;
+                let (_n, fields) = field_map(&img);
+                let mut seen = std::collections::BTreeSet::new();
+                let fl: Vec<(u64, u8, u64, String)> = fields.into_iter().filter(|f| seen.insert((f.off, f.width))).map(|f| (f.off, f.width, f.current, format!("{}:{}", f.box_path, f.name))).collect();
+                let n = fl.len() as u64 * SWEEP_VALUES;
+                images.push((spec, total, fl));
+                total += n;
+            }
+            SweepTable { images, total }
+        });
+        f(t)
+    })
+}
+
+/// Length of the systematic part per tier: thorough enumerates every (image, field, value),
+/// quick the first 50 000 of them (the first images of the list).
+pub fn sweep_len(tier: crate::runner::Tier) -> u64 {
+    match tier {
+        crate::runner::Tier::Quick => sweep_total().min(50_000),
+        crate::runner::Tier::Thorough => sweep_total(),
+    }
+}
+
+/// Number of cases of the systematic sweep (all images; the quick tier runs a prefix).
+pub fn sweep_total() -> u64 {
+    with_sweep(|t| t.total)
+}
+
+/// Case `i` of the sweep: image, field and value by mixed radix. A (field, value) slot whose
+/// value equals the current one or repeats another slot degenerates to a no-fault run.
+pub fn sweep_case(i: u64) -> CorruptCase {
+    with_sweep(|t| {
+        let i = i % t.total.max(1);
+        let (spec, base, fields) = t.images.iter().rev().find(|(_, b, _)| *b <= i).expect("sweep table");
+        let k = i - base;
+        let (off, width, cur, label) = &fields[(k / SWEEP_VALUES) as usize];
+        let vals = sweep_values(*width, *cur);
+        let vi = (k % SWEEP_VALUES) as usize;
+        let (faults, labels) = match vals.get(vi) {
+            Some(v) => (vec![StorageFault::SetField { off: *off, width: *width, val: *v }], vec![label.clone()]),
+            None => (vec![], vec![]),
+        };
+        let split = matches!(spec, SeedSpec::Frag { .. } | SeedSpec::CannedFrag) && (k / SWEEP_VALUES) % 2 == 0;
+        CorruptCase { seed: spec.clone(), faults, labels, split, init_faults: vec![], late: None, extra_ids: vec![], sweep: true }
+    })
 }
 
 pub fn gen_case(seed: u64) -> CorruptCase {
@@ -58,7 +155,7 @@ pub fn gen_case(seed: u64) -> CorruptCase {
         None
     };
     let extra_ids = (0..8).map(|_| r.edgy_u32()).collect();
-    CorruptCase { seed: spec, faults, labels, split, init_faults, late, extra_ids }
+    CorruptCase { seed: spec, faults, labels, split, init_faults, late, extra_ids, sweep: false }
 }
 
 pub struct CorruptRun {
@@ -130,6 +227,7 @@ fn strip_indices(label: &str) -> String {
 /// Statistics common to the three properties: fault kinds fired, targets hit, outcome classes.
 pub fn account(case: &CorruptCase, run: &CorruptRun, st: &mut Stats) {
     st.inc(&format!("seed.{}", case.seed.class()));
+    st.inc(if case.sweep { "campaign.systematic_single_field_sweep" } else { "campaign.seeded_random" });
     for f in &case.faults {
         st.inc(&format!("fault.storage.{}", f.kind()));
     }
